@@ -98,6 +98,121 @@ Proof.
 Qed.
 
 (* ---------------------------------------------------------------------------------------------- *)
+(* the guard of fix 0c6dfeb makes the cast defined: convertible<int64_t>(v) (finite, -2^63 <= v < 2^63, evaluated
+   with the double comparisons the code uses) implies that the truncation of v is an int64.
+   Uses the IEEE specification of PrimFloat (FloatAxioms: ltb_spec, leb_spec, Prim2SF_valid). *)
+Lemma digits2_bound : forall m, Z.pos m < 2 ^ Z.pos (digits2_pos m).
+Proof.
+  induction m as [m IH|m IH|]; cbn [digits2_pos].
+  - rewrite Pos2Z.inj_succ, Z.pow_succ_r by lia. rewrite Pos2Z.inj_xI. lia.
+  - rewrite Pos2Z.inj_succ, Z.pow_succ_r by lia. rewrite Pos2Z.inj_xO. lia.
+  - reflexivity.
+Qed.
+
+Lemma valid_mantissa_bound : forall s m e, valid_binary (S754_finite s m e) = true -> Z.pos m < 2 ^ 53.
+Proof.
+  intros s m e V. unfold valid_binary, bounded, canonical_mantissa in V.
+  apply andb_true_iff in V. destruct V as [V _]. apply Zeq_is_eq_bool in V.
+  unfold fexp, prec, emin, emax in V.
+  pose proof (digits2_bound m) as D.
+  assert (Z.pos (digits2_pos m) <= 53) as L by lia.
+  apply Z.lt_le_trans with (1 := D). apply Z.pow_le_mono_r; lia.
+Qed.
+
+Lemma sf_hi : Prim2SF (- dbl_lowest)%float = S754_finite false 4503599627370496 11.
+Proof. vm_compute. reflexivity. Qed.
+Lemma sf_lo : Prim2SF dbl_lowest = S754_finite true 4503599627370496 11.
+Proof. vm_compute. reflexivity. Qed.
+
+Definition mag (m : positive) (e : Z) : Z := if 0 <=? e then Z.pos m * 2 ^ e else Z.pos m / 2 ^ (- e).
+
+Lemma mag_nonneg : forall m e, 0 <= mag m e.
+Proof.
+  intros m e. unfold mag. destruct (0 <=? e) eqn:E.
+  - apply Z.leb_le in E. assert (0 < 2 ^ e) by (apply Z.pow_pos_nonneg; lia). nia.
+  - apply Z.leb_gt in E. apply Z.div_pos; [lia|apply Z.pow_pos_nonneg; lia].
+Qed.
+
+Lemma mag_small_exp : forall m e, Z.pos m < 2 ^ 53 -> e <= 10 -> mag m e < 2 ^ 63.
+Proof.
+  intros m e M E. unfold mag. destruct (0 <=? e) eqn:E0.
+  - apply Z.leb_le in E0. assert (2 ^ e <= 2 ^ 10) as P by (apply Z.pow_le_mono_r; lia).
+    assert (0 < 2 ^ e) as Q by (apply Z.pow_pos_nonneg; lia).
+    apply Z.le_lt_trans with (Z.pos m * 2 ^ 10).
+    + apply Z.mul_le_mono_nonneg_l; [lia|exact P].
+    + replace (2 ^ 63) with (2 ^ 53 * 2 ^ 10) by reflexivity.
+      apply Z.mul_lt_mono_pos_r; [reflexivity|exact M].
+  - apply Z.leb_gt in E0. assert (0 < 2 ^ (- e)) as P by (apply Z.pow_pos_nonneg; lia).
+    apply Z.le_lt_trans with (Z.pos m).
+    + apply Z.div_le_upper_bound; [exact P|].
+      rewrite <- (Z.mul_1_l (Z.pos m)) at 1. apply Z.mul_le_mono_nonneg_r; lia.
+    + apply Z.lt_trans with (1 := M). reflexivity.
+Qed.
+
+Lemma mag_11 : forall m, mag m 11 = Z.pos m * 2048.
+Proof. reflexivity. Qed.
+
+Lemma conv_f2i : forall f, conv_i f = true -> exists z, f2i f = Some z.
+Proof.
+  intros f C. unfold conv_i, src_convertible in C.
+  apply andb_true_iff in C. destruct C as [C LT]. apply andb_true_iff in C. destruct C as [_ LE].
+  rewrite ltb_spec, sf_hi in LT. rewrite leb_spec, sf_lo in LE.
+  pose proof (Prim2SF_valid f) as V.
+  unfold f2i, trunc_f. destruct (Prim2SF f) as [s|s| |s m e] eqn:P.
+  - exists 0. reflexivity.
+  - destruct s; [discriminate LE|discriminate LT].
+  - discriminate LE.
+  - pose proof (valid_mantissa_bound s m e V) as M.
+    fold (mag m e). pose proof (mag_nonneg m e) as N.
+    assert (in_int64 (if s then - mag m e else mag m e) = true) as R.
+    { unfold in_int64, int64_min, int64_max. apply andb_true_iff. destruct s.
+      - (* negative: lowest <= f *)
+        split; apply Z.leb_le; [|clear - N; lia].
+        unfold SFleb, SFcompare in LE.
+        destruct (11 ?= e) eqn:E.
+        + apply Z.compare_eq in E. subst e.
+          destruct (Pos.compare_cont Eq 4503599627370496 m) eqn:PC; simpl in LE; try discriminate LE.
+          * pose proof (Pos.compare_eq 4503599627370496 m) as H. unfold Pos.compare in H. specialize (H PC).
+            subst m. rewrite mag_11. clear. lia.
+          * pose proof (proj1 (Pos.compare_gt_iff 4503599627370496 m)) as H. unfold Pos.compare in H.
+            specialize (H PC). rewrite mag_11. apply Pos2Z.pos_lt_pos in H. clear - H. lia.
+        + discriminate LE.
+        + apply Z.compare_gt_iff in E. pose proof (mag_small_exp m e M ltac:(lia)) as B.
+          change (2 ^ 63) with 9223372036854775808 in B. lia.
+      - (* positive: f < -lowest *)
+        split; apply Z.leb_le; [clear - N; lia|].
+        unfold SFltb, SFcompare in LT.
+        destruct (e ?= 11) eqn:E.
+        + apply Z.compare_eq in E. subst e.
+          destruct (Pos.compare_cont Eq m 4503599627370496) eqn:PC; try discriminate LT.
+          pose proof (proj1 (Pos.compare_lt_iff m 4503599627370496)) as H. unfold Pos.compare in H.
+          specialize (H PC). rewrite mag_11. apply Pos2Z.pos_lt_pos in H. clear - H. lia.
+        + change (e < 11) in E. pose proof (mag_small_exp m e M ltac:(lia)) as B.
+          change (2 ^ 63) with 9223372036854775808 in B. lia.
+        + discriminate LT. }
+    rewrite R. eexists. reflexivity.
+Qed.
+
+Lemma conv_false_cases : forall f, conv_i f = false ->
+  is_finite f = false \/ PrimFloat.leb dbl_lowest f = false \/ PrimFloat.ltb f (- dbl_lowest)%float = false.
+Proof.
+  intros f C. unfold conv_i, src_convertible in C.
+  destruct (is_finite f); [|left; reflexivity].
+  destruct (PrimFloat.leb dbl_lowest f); [|right; left; reflexivity].
+  destruct (PrimFloat.ltb f (- dbl_lowest)%float); [discriminate C|right; right; reflexivity].
+Qed.
+
+(* the guards in front of the conversions *)
+Lemma g1_id : forall r, g1 r = r.
+Proof. reflexivity. Qed.
+Lemma g2_id : forall r, g2 r = r.
+Proof. reflexivity. Qed.
+Lemma guard1_spec : forall c r, guard1 c r = if c then r else Throw.
+Proof. intros [|] r; reflexivity. Qed.
+Lemma guard2_spec : forall c1 c2 r, guard2 c1 c2 r = if c1 && c2 then r else Throw.
+Proof. intros [|] [|] r; reflexivity. Qed.
+
+(* ---------------------------------------------------------------------------------------------- *)
 (* the update kernels: accepted exactly when the value lies in the domain, never UB, store exactly  *)
 Lemma upd_enum_spec : forall dom v,
   (In v dom /\ upd_enum dom v = Ok (SEnum v dom)) \/ (~ In v dom /\ upd_enum dom v = Throw).
@@ -205,31 +320,22 @@ Proof.
   - left. split; [exact I|]. eexists. split; [reflexivity|]. simpl. repeat split.
 Qed.
 
-(* the conversion is undefined (UB in C++): a double that is not an int64 after truncation, assigned to an
-   integer kind *)
-Definition ub_arg (s : storage) (a : arg) : bool :=
-  match a, s with
-  | AFlt f, SIRange _ _ _ _ _ => match f2i f with None => true | Some _ => false end
-  | AFPair x y, SIPair _ _ _ _ _ _ _ =>
-      match f2i x, f2i y with Some _, Some _ => false | _, _ => true end
-  | _, _ => false
-  end.
-
 Definition is_wr (a : arg) : bool := match a with AWriteRead _ => true | _ => false end.
 
-(* step = convert, then the domain check-and-store *)
+(* step = convert (which includes the convertibility guard), then the domain check-and-store; no UB left *)
 Lemma step_factor : forall s a,
   is_wr a = false ->
-  step s a = if ub_arg s a then UB
-             else match convert s a with Some r => upd_of s r | None => Throw end.
+  step s a = match convert s a with Some r => upd_of s r | None => Throw end.
 Proof.
-  intros s a W. destruct a; try discriminate W; destruct s; simpl; try reflexivity.
-  - destruct (f2i f); reflexivity.
-  - destruct (f2i a) ; destruct (f2i b); reflexivity.
-  - destruct (stoll s0); reflexivity.
-  - destruct d0; reflexivity.
-  - destruct (split_pair s0) as [t1 t2]. simpl. destruct (stoll t1); destruct (stoll t2); reflexivity.
-  - destruct d1; destruct d2; reflexivity.
+  intros s a W. destruct a; try discriminate W; destruct s; simpl; rewrite ?g1_id, ?g2_id; try reflexivity.
+  - rewrite guard1_spec. destruct (conv_i f) eqn:C; [|reflexivity].
+    destruct (conv_f2i f C) as [z E]. rewrite E. reflexivity.
+  - rewrite guard2_spec. destruct (conv_i a) eqn:C1; [|reflexivity]. destruct (conv_i b) eqn:C2; [|reflexivity].
+    destruct (conv_f2i a C1) as [x E1]. destruct (conv_f2i b C2) as [y E2]. rewrite E1, E2. reflexivity.
+  - destruct (stoll s0); rewrite ?g1_id; reflexivity.
+  - destruct d0; rewrite ?g1_id; reflexivity.
+  - destruct (split_pair s0) as [t1 t2]. simpl. destruct (stoll t1); destruct (stoll t2); rewrite ?g2_id; reflexivity.
+  - destruct d1; destruct d2; rewrite ?g2_id; reflexivity.
 Qed.
 
 (* serialisation round trip *)
@@ -253,7 +359,6 @@ Proof.
   intros s a s' H. destruct (is_wr a) eqn:W.
   - left. destruct a; try discriminate W. rewrite step_wr in H. inversion H. split; reflexivity.
   - right. split; [reflexivity|]. rewrite (step_factor s a W) in H.
-    destruct (ub_arg s a); [discriminate|].
     destruct (convert s a) as [r|]; [|discriminate].
     exists r. split; [reflexivity|].
     destruct (upd_of_spec s r) as [[D (s2 & E & R & Dm & I2)]|[D E]]; rewrite E in H; [|discriminate].
@@ -261,36 +366,44 @@ Proof.
 Qed.
 
 Lemma step_accepts : forall s a r,
-  is_wr a = false -> ub_arg s a = false -> convert s a = Some r -> in_dom s r ->
-  exists s', step s a = Ok s'.
+  is_wr a = false -> convert s a = Some r -> in_dom s r -> exists s', step s a = Ok s'.
 Proof.
-  intros s a r W U C D. rewrite (step_factor s a W), U, C.
+  intros s a r W C D. rewrite (step_factor s a W), C.
   destruct (upd_of_spec s r) as [[_ (s2 & E & _)]|[N _]]; [|contradiction].
   exists s2. exact E.
 Qed.
 
 Lemma step_throw : forall s a,
   step s a = Throw ->
-  is_wr a = false /\ ub_arg s a = false /\
-  (convert s a = None \/ exists r, convert s a = Some r /\ ~ in_dom s r).
+  is_wr a = false /\ (convert s a = None \/ exists r, convert s a = Some r /\ ~ in_dom s r).
 Proof.
   intros s a H. destruct (is_wr a) eqn:W.
   - destruct a; try discriminate W. rewrite step_wr in H. discriminate.
   - split; [reflexivity|]. rewrite (step_factor s a W) in H.
-    destruct (ub_arg s a); [discriminate|]. split; [reflexivity|].
     destruct (convert s a) as [r|]; [|left; reflexivity].
     right. exists r. split; [reflexivity|].
     destruct (upd_of_spec s r) as [[_ (s2 & E & _)]|[N _]]; [rewrite E in H; discriminate|exact N].
 Qed.
 
-Lemma step_ub : forall s a, step s a = UB <-> ub_arg s a = true.
+Lemma step_no_ub : forall s a, step s a <> UB.
 Proof.
   intros s a. destruct (is_wr a) eqn:W.
-  - destruct a; try discriminate W. rewrite step_wr. destruct s; simpl; split; discriminate.
-  - rewrite (step_factor s a W). destruct (ub_arg s a).
-    + split; reflexivity.
-    + split; [|discriminate]. destruct (convert s a) as [r|]; [|discriminate].
-      destruct (upd_of_spec s r) as [[_ (s2 & E & _)]|[_ E]]; rewrite E; discriminate.
+  - destruct a; try discriminate W. rewrite step_wr. discriminate.
+  - rewrite (step_factor s a W). destruct (convert s a) as [r|]; [|discriminate].
+    destruct (upd_of_spec s r) as [[_ (s2 & E & _)]|[_ E]]; rewrite E; discriminate.
+Qed.
+
+(* a double that is not convertible (NaN, +-inf, v < -2^63 or v >= 2^63 -- as decided by the double comparisons of
+   `convertible`) is rejected by integer and integer-pair parameters *)
+Lemma nonconvertible_rejected :
+  (forall v mn mx c1 c2 f, conv_i f = false -> step (SIRange v mn mx c1 c2) (AFlt f) = Throw) /\
+  (forall v1 v2 mn mx c1 c2 c3 a b, conv_i a = false \/ conv_i b = false ->
+     step (SIPair v1 v2 mn mx c1 c2 c3) (AFPair a b) = Throw).
+Proof.
+  split.
+  - intros v mn mx c1 c2 f C. simpl. rewrite guard1_spec, C. reflexivity.
+  - intros v1 v2 mn mx c1 c2 c3 a b C. simpl. rewrite guard2_spec.
+    destruct C as [C|C]; rewrite C; [reflexivity|]. rewrite andb_false_r. reflexivity.
 Qed.
 
 Lemma step_inv : forall s a s', Inv s -> step s a = Ok s' -> Inv s' /\ domain_of s' = domain_of s.
@@ -303,7 +416,7 @@ Qed.
 Lemma make_spec : forall s,
   (Inv s /\ make s = Ok s) \/ (~ Inv s /\ make s = Throw).
 Proof.
-  intro s. destruct s; simpl.
+  intro s. destruct s; simpl; rewrite ?g1_id, ?g2_id.
   - left. split; [exact I|reflexivity].
   - destruct (upd_enum_spec dom v) as [[H E]|[H E]]; rewrite E; [left|right]; split; auto.
   - destruct (upd_i_spec mn mx cmin cmax v) as [[H E]|[H E]]; rewrite E; [left|right]; split; auto.
@@ -313,16 +426,36 @@ Proof.
   - left. split; [exact I|reflexivity].
 Qed.
 
-(* histories *)
-Lemma run_inv : forall h s s', Inv s -> run s h = Some s' -> Inv s' /\ domain_of s' = domain_of s.
+(* what is still outside: make_integer called with doubles casts them unguarded (include/nano/parameter.h) *)
+Lemma make_integer_d_ub : forall v mn mx c1 c2,
+  make_integer_d v mn mx c1 c2 = UB <-> (f2i v = None \/ f2i mn = None \/ f2i mx = None).
 Proof.
-  induction h as [|a h IH]; intros s s' I H; simpl in H.
-  - inversion H; subst. split; [exact I|reflexivity].
-  - destruct (step s a) as [s1| |] eqn:E; simpl in H.
-    + destruct (step_inv s a s1 I E) as [I1 D1]. destruct (IH s1 s' I1 H) as [I2 D2].
-      split; [exact I2|]. rewrite D2. exact D1.
-    + apply IH; assumption.
-    + discriminate.
+  intros v mn mx c1 c2. unfold make_integer_d.
+  destruct (f2i v) as [v'|]; [|split; [intros _; left; reflexivity|reflexivity]].
+  destruct (f2i mn) as [mn'|]; [|split; [intros _; right; left; reflexivity|reflexivity]].
+  destruct (f2i mx) as [mx'|]; [|split; [intros _; right; right; reflexivity|reflexivity]].
+  split.
+  - intro H. destruct (make_spec (SIRange v' mn' mx' c1 c2)) as [[_ E]|[_ E]]; rewrite E in H; discriminate.
+  - intros [H|[H|H]]; discriminate.
+Qed.
+
+(* histories *)
+Lemma after_total : forall s a, exists s1, after s (step s a) = Some s1 /\ (step s a = Ok s1 \/ (step s a = Throw /\ s1 = s)).
+Proof.
+  intros s a. destruct (step s a) as [s1| |] eqn:E.
+  - exists s1. split; [reflexivity|left; reflexivity].
+  - exists s. split; [reflexivity|right; split; reflexivity].
+  - exfalso. exact (step_no_ub s a E).
+Qed.
+
+Lemma run_inv : forall h s, Inv s -> exists s', run s h = Some s' /\ Inv s' /\ domain_of s' = domain_of s.
+Proof.
+  induction h as [|a h IH]; intros s I; simpl.
+  - exists s. repeat split. exact I.
+  - destruct (after_total s a) as (s1 & A & [E|[E Eq]]); rewrite A.
+    + destruct (step_inv s a s1 I E) as [I1 D1]. destruct (IH s1 I1) as (s' & R & I2 & D2).
+      exists s'. repeat split; [exact R|exact I2|]. rewrite D2. exact D1.
+    + subst s1. apply IH. exact I.
 Qed.
 
 Lemma run_app : forall h1 h2 s, run s (h1 ++ h2) = match run s h1 with Some s1 => run s1 h2 | None => None end.
@@ -527,6 +660,26 @@ Proof.
     + apply (IH c1); [apply (cstep_inv c o c1 I E)|exact H].
     + apply (IH c); assumption.
     + discriminate.
+Qed.
+
+Lemma cstep_no_ub : forall c o, cstep c o <> CUB.
+Proof.
+  intros c o. destruct o as [name a|name s]; simpl.
+  - unfold cassign. destruct (src_find_throws true (cfind_pos name c) (clen c)); [discriminate|].
+    destruct (nth_error c (Z.to_nat (cfind_pos name c))) as [p|]; [|discriminate].
+    destruct (step (pstore p) a) eqn:E; try discriminate. exfalso. exact (step_no_ub _ _ E).
+  - destruct (make_spec s) as [[_ E]|[_ E]]; rewrite E; [|discriminate].
+    destruct (cregister c (mkParam name s)); discriminate.
+Qed.
+
+Lemma crun_total_inv : forall h c, CInv c -> exists c', crun c h = Some c' /\ CInv c'.
+Proof.
+  induction h as [|o h IH]; intros c I; simpl.
+  - exists c. split; [reflexivity|exact I].
+  - destruct (cstep c o) as [c1| |] eqn:E; simpl.
+    + apply IH. exact (cstep_inv c o c1 I E).
+    + apply IH. exact I.
+    + exfalso. exact (cstep_no_ub c o E).
 Qed.
 
 Lemma CInv_nil : CInv [].
@@ -802,3 +955,30 @@ Definition fx_2_7 : float := 0x1.599999999999ap+1%float.
 Definition fx_2p53 : float := 0x1p+53%float.
 Definition fx_2p63 : float := 0x1p+63%float.
 Definition fx_m2p63 : float := (-0x1p+63)%float.
+
+(* ---------------------------------------------------------------------------------------------- *)
+(* int64 <-> double conversions: the general exactness statement is NOT proved (it needs the IEEE semantics of
+   of_uint63/frshiftexp); it is checked by computation on boundary points here and bit-exactly against static_cast on
+   every numeric case of every run *)
+Definition int_roundtrip_full_statement : Prop :=
+  forall z, - 2 ^ 53 <= z <= 2 ^ 53 -> f2i (i2f z) = Some z.
+
+Definition rt_ok (z : Z) : bool := match f2i (i2f z) with Some t => t =? z | None => false end.
+Definition rt_points : list Z :=
+  let small := map Z.of_nat (seq 0 300) in
+  let pows := flat_map (fun k => [2 ^ Z.of_nat k - 1; 2 ^ Z.of_nat k; 2 ^ Z.of_nat k + 1]) (seq 1 52) in
+  let all := small ++ pows ++ [2 ^ 53 - 1; 2 ^ 53; 999999999999; 4503599627370497] in
+  all ++ map Z.opp all.
+
+Lemma rt_points_ok : forallb rt_ok rt_points = true.
+Proof. vm_compute. reflexivity. Qed.
+
+Lemma int_roundtrip_points : Forall (fun z => - 2 ^ 53 <= z <= 2 ^ 53 /\ f2i (i2f z) = Some z) rt_points.
+Proof.
+  apply Forall_forall. intros z H. split.
+  - assert (forallb (fun z => (- 2 ^ 53 <=? z) && (z <=? 2 ^ 53)) rt_points = true) as R by (vm_compute; reflexivity).
+    rewrite forallb_forall in R. specialize (R z H). apply andb_true_iff in R. destruct R as [R1 R2].
+    apply Z.leb_le in R1. apply Z.leb_le in R2. split; assumption.
+  - pose proof rt_points_ok as R. rewrite forallb_forall in R. specialize (R z H). unfold rt_ok in R.
+    destruct (f2i (i2f z)) as [t|]; [|discriminate]. apply Z.eqb_eq in R. subst. reflexivity.
+Qed.
